@@ -58,6 +58,13 @@ def concretize(c, tag=False):
                 body = f"ghost({cp})" if cp != "-" else "ghost"
             elif n == "ghost_d":
                 body = f"ghost({cpfx(cp)}{{gh{sfx(cp)}()}})"
+            elif n in ("ghost_owned_d", "ghost_ref_d"):
+                x["own"] = True        # these have no bare form
+                body = f"{n[:-2]}({cpfx(cp)}{{gh{sfx(cp)}()}})"
+            elif n == "parentp_idx":
+                body = f"parent({cpfx(cp)}0)"
+            elif n == "parentp_untyped":
+                body = f"parent({cpfx(cp)}b1, [parent(c1)] inner)"
             elif n == "child":
                 body = f"child({cpfx(cp)}p)"
             elif n == "parent0":
@@ -110,6 +117,8 @@ RULES = [
     (r"(?:Member|Struct) instruction '(\w+)' is not supported\.", lambda m: "unknown_instr/" + m.group(1)),
     (r"Instruction #\[(\w+)\(\.\.\.\)\] is not supported for this member", lambda m: "unsupported_member/" + m.group(1)),
     (r"Member (\d+) should have member trait instruction with field name", lambda m: "tuple_named_mismatch/" + m.group(1)),
+    (r"Member (\d+) should have an instruction that specifies corresponding field name", lambda m: "parent_field_unnamed/" + m.group(1)),
+    (r"Field '(\w+)' should have type here", lambda m: "untyped_parent/" + m.group(1)),
     (r"Member trait instruction #\[\w+\(\.\.\.\)\] for member (\d+) should specify corresponding field name", lambda m: "tuple_named_mismatch/" + m.group(1)),
 ]
 
@@ -131,7 +140,7 @@ def classify(msgs):
 
 def run(tier, seed):
     ctx = core.Ctx("C15", tier, seed, LEVEL)
-    cfgs = ["MC_C15_q1", "MC_C15_q2", "MC_C15_q3", "MC_C15_q4"]
+    cfgs = ["MC_C15_q1", "MC_C15_q2", "MC_C15_q3", "MC_C15_q4", "MC_C15_q5"]
     cases = []
     for cfg in cfgs:
         r = core.tlc("MC_C15", cfg, workers=12, timeout=1500)
